@@ -1007,6 +1007,7 @@ func runC12(c *core.Ctx, o Options) {
 	checkVersionString(c, "j", gen)
 	checkPackageNameTest(c, "e", gen)
 	checkTableKeysAgree(c, "g", gen)
+	checkComponentSharesItems(c, "b")
 	// ---- (k) the syntax gate: go/format.Source is the only thing that parses the rendered text before it is written; when it
 	// fails, generation fails (panic or error) — a schema whose names do not render to valid Go is not "accepted"
 	{
